@@ -17,8 +17,8 @@ pub fn property() -> Property {
             "duplicate (tag,index) redeemers and the same policy twice in a Mint are meaningless inputs and are not generated".into(),
         ],
         subchecks: vec![
-            SubCheck { name: "typed", kind: Kind::Tape { quick: 1_000_000, thorough: 30_000_000, max_len: 600 }, run: typed },
-            SubCheck { name: "builder_tx", kind: Kind::Tape { quick: 30_000, thorough: 1_500_000, max_len: 500 }, run: super::builder::c03_builder_case },
+            SubCheck { name: "typed", kind: Kind::Tape { quick: 4_000_000, thorough: 30_000_000, max_len: 600 }, run: typed },
+            SubCheck { name: "builder_tx", kind: Kind::Tape { quick: 300_000, thorough: 6_000_000, max_len: 500 }, run: super::builder::c03_builder_case },
             SubCheck { name: "typed_floor", kind: Kind::Enum { count: floor_count, make: floor_make, exhaustive_note: "" }, run: typed_floor },
         ],
         crash_prone: false,
